@@ -317,6 +317,13 @@ def c04_random(rng, cfg):
                                      code=events[-1][5] if events[-1][0] == "R" else GET, body=i + 1))
             if off > EL:
                 srv += 1        # processed as a new request
+    # a transport error reported for one of the peers (an answer bounced with ICMP unreachable, ...): what was
+    # received from it before must still be recognised as a duplicate afterwards
+    if rng.random() < 0.4:
+        tmax = max(e[1] for e in events)
+        for _ in range(rng.randrange(1, 3)):
+            events.append(["E", clock.at(rng.choice([rng.randrange(1, 3 * M), rng.randrange(1, min(tmax, EL) + 2)])),
+                           rng.randrange(3)])
     # own traffic whose message ids collide with the peers'
     if rng.random() < 0.6:
         for r in range(rng.randrange(1, 3)):
@@ -327,6 +334,35 @@ def c04_random(rng, cfg):
     events.sort(key=lambda e: e[1])
     events.append(far_end(events))
     return {"events": events, "rules": rules, "draws": [], "mid": first_mid, "tag": "random"}
+
+
+def c04_alias(rng, cfg):
+    """the application hands out ONE response object for all its (quickly answered, confirmable) requests; copies
+    of every request arrive afterwards: each still gets the acknowledgement that was sent for it"""
+    clock = Clock(rng)
+    EAD = cfg["emptyAckDelay"]
+    events = []
+    reqs = []
+    for i in range(rng.randrange(2, 5)):
+        remote = rng.randrange(3)
+        mid = 4096 + i if rng.random() < 0.7 else 4096
+        if (remote, mid) in [(r, m) for (r, m, _, _) in reqs]:
+            mid = 5000 + i
+        token = "%02x" % (0xa0 + i)
+        t0 = clock.after(EAD + 10, 3 * M)
+        events.append(request_in(t0, remote, mid, token, mtype="CON", body=i + 1))
+        events.append(respond(clock.at(t0 + rng.randrange(1, EAD - 1)), i, body=20 + i,
+                              code=rng.choice([CONTENT, CONTENT, NOT_FOUND])))
+        reqs.append((remote, mid, token, i + 1))
+    t = max(e[1] for e in events) + EAD
+    for _ in range(rng.randrange(2, 7)):
+        remote, mid, token, body = rng.choice(reqs)
+        t = clock.at(t + rng.choice([1, 1000, M, 20 * M]))
+        events.append(request_in(t, remote, mid, token, mtype="CON", body=body))
+    events.sort(key=lambda e: e[1])
+    events.append(far_end(events))
+    return {"events": events, "rules": [], "draws": [], "mid": 9000, "tag": "aliased-response-object",
+            "alias_responses": True}
 
 
 CODE_CLASSES = {
@@ -374,6 +410,41 @@ def c10_table():
                     scripts.append({"events": ev, "rules": rules, "draws": [],
                                     "tag": f"nr:{mtype}:{speed}:{nr}:{code}"})
     # multicast destination
+    # message IDs at the ends of the 16-bit space x handler speed x No-Response
+    for mid in (0, 1, 0x7FFF, 0x8000, 0xFFFF):
+        for speed in ("fast", "slow"):
+            for nr in (0, 2, 26):
+                for mtype in ("CON", "NON"):
+                    t = 5000
+                    ev = [request_in(t, 0, mid, "cd", mtype=mtype, body=1)]
+                    ev.append(respond(t + (50000 if speed == "fast" else 200000), 0, body=6, nr=nr))
+                    ev.append(far_end(ev))
+                    rules = [{"remote": 0, "mtype": "CON", "nth": 1, "do": "ack", "after": 700}]
+                    scripts.append({"events": ev, "rules": rules, "draws": [],
+                                    "tag": f"request-mid:{mid}:{mtype}:{speed}:nr{nr}"})
+    # a CON of ours to the peer is still unacknowledged (a separate response, or a request) when a new CON request
+    # of that peer is answered quickly: its piggy-backed / empty ACK is not a CON and must not wait in the queue
+    for first in ("separate-response", "own-request"):
+        for late_ack in (None, 3 * M):
+            for nr in (0, 26):
+                for speed in ("fast", "slow"):
+                    t = 5000
+                    ev, srv = [], 0
+                    if first == "separate-response":
+                        ev += [request_in(t, 0, 901, "c1", mtype="CON", body=1), respond(t + 200000, 0, body=5)]
+                        srv = 1
+                    else:
+                        ev.append(submit(t + 200000, 0, 0, rel=True))
+                    tb = t + 400000
+                    ev.append(request_in(tb, 0, 902, "c2", mtype="CON", body=2))
+                    ev.append(respond(tb + (1000 if speed == "fast" else 200000), srv, body=6, nr=nr))
+                    ev.append(far_end(ev))
+                    rules = []
+                    if late_ack:
+                        rules.append({"remote": 0, "mtype": "CON", "nth": 1, "do": "ack", "after": late_ack})
+                        rules.append({"remote": 0, "mtype": "CON", "nth": 2, "do": "ack", "after": 900})
+                    scripts.append({"events": ev, "rules": rules, "draws": [2 * M + 5, 2 * M + 9],
+                                    "tag": f"ack-behind-open-exchange:{first}:{late_ack}:nr{nr}:{speed}"})
     for rel in (True, None, False):
         for mtype in (None, "CON", "NON"):
             ev = [submit(1000, 0, 9, rel=rel, mc=True, mtype=mtype)]
@@ -454,6 +525,13 @@ def c02_random(rng, cfg, with_shutdown=None):
                            rng.choice(["CON", "NON", "ACK"]), CONTENT, 5000 + r, forged_tok, None, 666])
     if rng.random() < 0.25:
         events.append(["E", clock.at(rng.randrange(1, 60 * M)), rng.randrange(3)])
+    if rng.random() < 0.25:
+        # a multicast request stays outstanding (it is not tied to one responding endpoint) while transport
+        # errors and time-outs for other requests are reported
+        events.append(submit(clock.at(rng.randrange(1, 5 * M)), 40, 9, rel=False, mc=True))
+        if rng.random() < 0.5:
+            events.append(["R", clock.at(rng.randrange(6 * M, 20 * M)), rng.randrange(3), False, "NON", CONTENT, 7000,
+                           "%02x" % (token0 + 1 + nreq), None, 240])
     if rng.random() < 0.15:
         victim = rng.randrange(nreq)
         tsub = [e[1] for e in events if e[0] == "S" and e[2] == victim][0]
@@ -465,6 +543,12 @@ def c02_random(rng, cfg, with_shutdown=None):
         events.append(["X", ts])
         if rng.random() < 0.5:
             events.append(submit(clock.at(ts + rng.randrange(1, M)), nreq, 0, rel=True))
+        if rng.random() < 0.5:
+            # a request submitted while the shutdown is in progress (same tick, k loop iterations later): it, too,
+            # completes exactly once with the shutdown error
+            ev = submit(ts, nreq + 1, rng.randrange(3), rel=rng.random() < 0.5)
+            ev += [None, rng.randrange(0, 7)]
+            events.append(ev)
         events.sort(key=lambda e: e[1])
     events.append(far_end(events))
     return {"events": events, "rules": rules, "draws": draws, "tag": "random"}
